@@ -4,6 +4,7 @@ import (
 	"context"
 	"fmt"
 	"runtime"
+	"strings"
 	"sync"
 	"sync/atomic"
 	"testing/synctest"
@@ -327,6 +328,11 @@ func (s *Sched) hook(kind int, site string) {
 	}
 	t := s.lookup(gid)
 	if t == nil {
+		if outsideBubble(gid) {
+			// the runtime's finalizer / cleanup goroutine running code of the tree under test: it is not part of the
+			// bubble, cannot be parked on the bubble's channels and is not a schedule choice of this simulator
+			return
+		}
 		// a goroutine started by the code under test (e.g. a registry poller)
 		s.mu.Lock()
 		t = &Task{ID: len(s.tasks), Name: "spawned", s: s, gid: gid, wake: make(chan struct{}), adopted: true, daemon: true}
@@ -944,4 +950,20 @@ func RootCall(f func()) (ok bool) {
 	}()
 	f()
 	return true
+}
+
+// outsideBubble: goroutines the runtime owns (finalizers, cleanups). Decided once per goroutine id from its stack.
+var runtimeOwned sync.Map // gid -> bool
+
+//go:norace
+func outsideBubble(gid uint64) bool {
+	if v, ok := runtimeOwned.Load(gid); ok {
+		return v.(bool)
+	}
+	buf := make([]byte, 256<<10)
+	buf = buf[:runtime.Stack(buf, false)]
+	st := string(buf)
+	out := strings.Contains(st, "runtime.runFinalizers") || strings.Contains(st, "runtime.runCleanups") || strings.Contains(st, "runtime.runfinq")
+	runtimeOwned.Store(gid, out)
+	return out
 }
